@@ -37,12 +37,16 @@
 #include "Simulation/CalcSimuTurningBands.hpp"
 #include "Calculators/CalcMigrate.hpp"
 #include "Calculators/CalcStatistics.hpp"
+#include "Calculators/CalcGridToGrid.hpp"
 #include "Anamorphosis/AAnam.hpp"
 #include "Anamorphosis/AnamHermite.hpp"
 #include "Anamorphosis/AnamDiscreteDD.hpp"
 #include "Anamorphosis/CalcAnamTransform.hpp"
 #include "Stats/Selectivity.hpp"
 #include "Stats/PCA.hpp"
+#include "LithoRule/Rule.hpp"
+#include "LithoRule/RuleProp.hpp"
+#include "geoslib_f.h"
 #include "Simulation/CalcSimuFFT.hpp"
 #include "Simulation/SimuFFTParam.hpp"
 #include "Matrix/MatrixRectangular.hpp"
@@ -55,6 +59,7 @@ using namespace vh;
 using c19::DbSnap;
 
 // Switches to steer the generator away from input classes that crash many cases (GUIDE rule 2); default off.
+static const bool AVOID_SIMFFT_MODEL_NDIM = true; // simfft(grid of dimension d, model of dimension d'): infinite loop in CalcSimuFFT::_gridDilate (HANG, hence avoided by default)
 static const bool AVOID_KRIBAYES_SELECTION = false; // kribayes + selection on dbin: heap-buffer-overflow in KrigingSystem::_bayesPreCalculations
 static const bool AVOID_KRIGGAM_NULL_ANAM = false; // kriggam(anam = nullptr): not checked anywhere
 static const bool AVOID_IMAGE_NEIGH = false; // CalcKriging::_check lets an IMAGE neighbourhood through (`return 1`): Eigen assertion in KrigingSystem::_estimateCalculImage
@@ -385,6 +390,31 @@ static void runScenario(Rng& r, Ctx& c, Scen& s)
         haveFresh = false;
         c.skip("valid-call-not-reproducible:" + s.calc);
       }
+      // 1b. name collisions: the output Db already holds columns named EXACTLY like the outputs of this call
+      // (Db.hpp: a name is "unique in the Data Base"): the call must still succeed, the older columns keep their
+      // names and values, and the same number of new columns appears.
+      {
+        std::vector<std::string> outNames;
+        for (auto* p : c19::newColumns(b0, b1)) outNames.push_back(p->name);
+        if (!outNames.empty())
+        {
+          World w3 = fresh(s);
+          Call cc  = s.valid;
+          cc.label = "valid+name-collision";
+          cc.exp.qual.clear(); // colliding new names get a suffix: qualifiers still present but not re-counted
+          cc.prep  = [&](World& w) {
+            if (s.valid.prep) s.valid.prep(w);
+            Db* d = w.out();
+            VectorDouble v(d->getSampleNumber(), 7.);
+            for (size_t i = 0; i < outNames.size() && i < 2; i++) d->addColumns(v, outNames[i], ELoc::UNKNOWN);
+          };
+          Outcome o3 = runCall(w3, cc);
+          if (o3.rc == 0)
+            judgeSuccess(c, s, w3, cc, o3, "success-name-collision");
+          else
+            judgeFailure(c, s, w3, cc, o3, "name-collision-refused", 0, false);
+        }
+      }
     }
   }
 
@@ -452,7 +482,9 @@ static void runScenario(Rng& r, Ctx& c, Scen& s)
       c.probe("invalid-accepted:" + s.calc + ":" + call.label);
       Call cc      = call;
       cc.exp.known = false;
-      judgeSuccess(c, s, w, cc, o, kind + ":accepted");
+      // one kind for all accepted variants (the label is in the probe): what may differ is what differs on the
+      // success path, and one key per label would multiply every success-path finding by the number of labels
+      judgeSuccess(c, s, w, cc, o, "accepted-invalid");
     }
   }
 }
@@ -528,6 +560,7 @@ struct PointOpts
   int nfex    = 0;     // external drift columns (locator F)
   bool verr   = false; // measurement error variances (locator V), one per variable
   bool code   = false; // code column (locator C)
+  bool dup    = false; // two pairs of samples share their coordinates (singular kriging systems)
   double box  = 100.;
 };
 
@@ -542,6 +575,7 @@ static Db* makePoints(Rng& r, const PointOpts& o, const Prior& p, const std::str
     for (int i = 0; i < o.n; i++)
     {
       xs[i][d] = r.uni(0.03, 0.97) * o.box;
+      if (o.dup && o.n >= 6 && (i == 1 || i == o.n - 1)) xs[i][d] = xs[i - 1][d];
       tab.push_back(xs[i][d]);
     }
     names.push_back("x" + std::to_string(d + 1));
@@ -596,6 +630,8 @@ struct GridOpts
   double box = 100.;
   int nfex   = 0;
   bool rotated = false;
+  bool fexHoles = false; // undefined external drift at some targets
+  bool forceNostat = false; // one NOSTAT column (second expansion of the interpolators)
   int nz = 0; // variables with locator Z already on the grid
 };
 
@@ -636,8 +672,19 @@ static DbGrid* makeGrid(Rng& r, const GridOpts& o, const Prior& p)
     {
       double x = g->getCoordinate(k, 0), y = g->getCoordinate(k, o.ndim - 1);
       v[k]     = std::sin(0.05 * x * (f + 1)) + 0.02 * y;
+      if (o.fexHoles && r.coin(0.15)) v[k] = TEST;
     }
     g->addColumns(v, "gfext" + std::to_string(f + 1), ELoc::F, f);
+  }
+  if (o.forceNostat && std::find(p.avoid.begin(), p.avoid.end(), ELoc::NOSTAT.getValue()) == p.avoid.end())
+  {
+    VectorDouble v(n);
+    for (int k = 0; k < n; k++) v[k] = r.uni(0.5, 1.5);
+    g->addColumns(v, "g_nostat", ELoc::NOSTAT, 0);
+    Prior p2 = p;
+    p2.avoid.push_back(ELoc::NOSTAT.getValue());
+    addDecor(r, g, p2);
+    return g;
   }
   addDecor(r, g, p);
   return g;
@@ -745,7 +792,7 @@ static void scenKrigingFamily(Rng& r, Ctx& c, Scen& s, const std::string& which)
   bool outGrid   = !isX && r.coin(0.6);
   bool moving    = r.coin(0.5) || (isX && nvar > 1); // xvalid in unique neighbourhood is documented single-variable
   int driftKind  = r.irange(-1, 1);
-  int nfex       = (!isX && which == "kriging" && nvar == 1 && r.coin(0.3)) ? r.irange(1, 2) : 0;
+  int nfex       = (!isX && which == "kriging" && nvar == 1 && r.coin(0.4)) ? r.irange(1, 2) : 0;
   bool dbinHasF  = nfex > 0 && (!outGrid || r.coin(0.4)); // when false and dbout is a grid: migrated in _preprocess
   bool hetero    = nvar > 1 && r.coin(0.4);
   bool verr      = r.coin(0.25);
@@ -760,6 +807,8 @@ static void scenKrigingFamily(Rng& r, Ctx& c, Scen& s, const std::string& which)
   pin.avoid.push_back(ELoc::NOSTAT.getValue());
   if (!outGrid) pout.avoid.push_back(ELoc::NOSTAT.getValue());
   PointOpts po; po.ndim = ndim; po.n = n; po.nvar = nvar; po.hetero = hetero; po.nfex = dbinHasF ? nfex : 0; po.verr = verr;
+  po.dup = !verr && r.coin(0.2); // duplicated data: singular systems on the targets that see them (results undefined, no failure)
+  bool fexHoles = nfex > 0 && r.coin(0.3);
   s.din0.reset(makePoints(r, po, pin));
   s.same = isX;
   if (!isX)
@@ -767,7 +816,7 @@ static void scenKrigingFamily(Rng& r, Ctx& c, Scen& s, const std::string& which)
     if (outGrid)
     {
       GridOpts go; go.ndim = ndim; go.nx = gridShape(r, ndim, c.thorough() ? 80 : 30); go.nfex = nfex; go.rotated = r.coin(0.3);
-      go.nz = r.irange(0, 2);
+      go.nz = r.irange(0, 2); go.fexHoles = fexHoles; go.forceNostat = (nfex > 0 && !dbinHasF && r.coin(0.6)) || r.coin(0.2);
       s.dout0.reset(makeGrid(r, go, pout));
     }
     else
@@ -784,9 +833,9 @@ static void scenKrigingFamily(Rng& r, Ctx& c, Scen& s, const std::string& which)
 
   std::string prefix = r.pick(std::vector<std::string>{"K", "Res", "o_plain0", "z1"});
   s.calc = which;
-  s.sig  = fmt("ndim=%d:nvar=%d:out=%s:neigh=%s:drift=%d:nfex=%d:dbinF=%d:hetero=%d:verr=%d", ndim, nvar,
+  s.sig  = fmt("ndim=%d:nvar=%d:out=%s:neigh=%s:drift=%d:nfex=%d:dbinF=%d:hetero=%d:verr=%d:dup=%d:fexholes=%d", ndim, nvar,
                isX ? "same" : (outGrid ? "grid" : "points"), moving ? "moving" : "unique", driftKind, nfex, (int)dbinHasF,
-               (int)hetero, (int)verr);
+               (int)hetero, (int)verr, (int)po.dup, (int)fexHoles);
 
   // ---- the valid call ------------------------------------------------------------------------
   Expect e;
@@ -1033,7 +1082,7 @@ static void scenSimtub(Rng& r, Ctx& c, Scen& s)
   bool outGrid = r.coin(0.6);
   bool moving  = r.coin(0.4);
   int drift    = r.irange(-1, 0);
-  int nfex     = (cond && nvar == 1 && outGrid && r.coin(0.3)) ? 1 : 0;
+  int nfex     = (cond && nvar == 1 && outGrid && r.coin(0.5)) ? 1 : 0;
   bool dbinHasF = nfex > 0 && r.coin(0.4);
   int nbsimu   = r.irange(1, 3);
   int nbtuba   = r.irange(5, 20);
@@ -1052,6 +1101,7 @@ static void scenSimtub(Rng& r, Ctx& c, Scen& s)
   if (outGrid)
   {
     GridOpts go; go.ndim = ndim; go.nx = gridShape(r, ndim, c.thorough() ? 80 : 30); go.nfex = nfex; go.nz = r.irange(0, 2);
+    go.forceNostat = (nfex > 0 && !dbinHasF && r.coin(0.6)) || r.coin(0.2);
     s.dout0.reset(makeGrid(r, go, pout));
   }
   else
@@ -1402,6 +1452,7 @@ static void scenKrigingOptions(Rng& r, Ctx& c, Scen& s, const std::string& which
   if (outGrid)
   {
     GridOpts go; go.ndim = ndim; go.nx = gridShape(r, ndim, c.thorough() ? 80 : 30); go.nz = r.irange(0, 2);
+    go.forceNostat = r.coin(0.2);
     DbGrid* g = makeGrid(r, go, pout);
     if (which == "krigcell")
       for (int d = 0; d < ndim; d++)
@@ -1528,7 +1579,7 @@ static void scenSimOther(Rng& r, Ctx& c, Scen& s, const std::string& which)
     PointOpts po; po.ndim = ndim; po.n = r.irange(8, c.thorough() ? 50 : 20); po.nvar = nvar;
     pin.sel = !AVOID_KRIBAYES_SELECTION && r.coin(0.25);
     s.din0.reset(makePoints(r, po, pin));
-    if (outGrid) { GridOpts go; go.ndim = ndim; go.nx = gridShape(r, ndim, c.thorough() ? 80 : 30); go.nz = r.irange(0, 1); s.dout0.reset(makeGrid(r, go, pout)); }
+    if (outGrid) { GridOpts go; go.ndim = ndim; go.nx = gridShape(r, ndim, c.thorough() ? 80 : 30); go.nz = r.irange(0, 1); go.forceNostat = r.coin(0.2); s.dout0.reset(makeGrid(r, go, pout)); }
     else { PointOpts qo; qo.ndim = ndim; qo.n = r.irange(3, 15); qo.nvar = r.irange(0, 1); s.dout0.reset(makePoints(r, qo, pout, "t")); }
     ModelOpts mo; mo.ndim = ndim; mo.nvar = nvar; mo.drift = r.irange(0, 1);
     s.model0.reset(makeModel(r, mo));
@@ -1567,8 +1618,11 @@ static void scenSimOther(Rng& r, Ctx& c, Scen& s, const std::string& which)
     add("nbsimu-zero", [=](World& w) { return f(w.in(), w.model.get(), 0); });
     add("bivariate-model", [=](World& w) { ModelOpts m2 = mo; m2.nvar = 2; Rng rr(7); std::unique_ptr<Model> m(makeModel(rr, m2));
                                             return f(w.in(), m.get(), nbsimu); });
-    add("model-ndim", [=](World& w) { ModelOpts m2 = mo; m2.ndim = otherDim(ndim); Rng rr(7); std::unique_ptr<Model> m(makeModel(rr, m2));
-                                       return f(w.in(), m.get(), nbsimu); });
+    // simfft never compares the dimension of the grid with the one of the model: CalcSimuFFT::_gridDilate then loops for
+    // ever (distance always 0). A hang costs a watchdog period per case: this variant is OFF by default (see report).
+    if (!AVOID_SIMFFT_MODEL_NDIM)
+      add("model-ndim", [=](World& w) { ModelOpts m2 = mo; m2.ndim = otherDim(ndim); Rng rr(7); std::unique_ptr<Model> m(makeModel(rr, m2));
+                                         return f(w.in(), m.get(), nbsimu); }, nullptr, true);
     add("null-model", [=](World& w) { return f(w.in(), nullptr, nbsimu); });
     add("null-grid", [=](World& w) { return f(nullptr, w.model.get(), nbsimu); });
   }
@@ -1697,6 +1751,130 @@ static void scenRecovery(Rng& r, Ctx& c, Scen& s, const std::string& which)
   s.valid.exp = e;
 }
 
+
+// ------------------------------------------------------------------------------------------------
+// Scenario: dbg2gCopy / dbg2gExpand / dbg2gShrink (CalcGridToGrid)
+// ------------------------------------------------------------------------------------------------
+static void scenGridToGrid(Rng& r, Ctx& c, Scen& s, const std::string& which)
+{
+  // doc (CalcGridToGrid.cpp _check): "Both Files are compulsory as Grid", "The two Grids do not share the same common
+  // dimensions", "This application requires 1 variable(s) to be defined"; Copy: same space dimension; Expand: dbout of
+  // larger dimension; Shrink: dbout of smaller dimension. One output column.
+  int ndimIn  = which == "dbg2gCopy" ? r.irange(1, 3) : (which == "dbg2gExpand" ? r.irange(1, 2) : r.irange(2, 3));
+  int ndimOut = which == "dbg2gCopy" ? ndimIn : (which == "dbg2gExpand" ? ndimIn + 1 : ndimIn - 1);
+  int ndimMax = std::max(ndimIn, ndimOut);
+  defineDefaultSpace(ESpaceType::RN, ndimMax);
+  std::vector<int> nx = gridShape(r, ndimMax, c.thorough() ? 100 : 40);
+  Prior pin;  pin.tag = "i_"; pin.ndecor = r.irange(1, 5);
+  Prior pout; pout.tag = "o_"; pout.ndecor = r.irange(1, 5);
+  GridOpts gi; gi.ndim = ndimIn;  gi.nx.assign(nx.begin(), nx.begin() + ndimIn);  gi.nz = 1; gi.box = 100.;
+  GridOpts go; go.ndim = ndimOut; go.nx.assign(nx.begin(), nx.begin() + ndimOut); go.nz = r.irange(which == "dbg2gShrink" ? 1 : 0, 2);
+  // common dimensions must share nx, dx, x0: makeGrid derives dx = box / nx and x0 = dx / 2 per dimension
+  s.din0.reset(makeGrid(r, gi, pin));
+  s.dout0.reset(makeGrid(r, go, pout));
+  s.calc = which;
+  Expect e;
+  NamingConvention nc = makeNamconv(r, r.pick(std::vector<std::string>{"G2G", "o_plain0"}), e);
+  if (which == "dbg2gExpand") { e.flagLocator = true; e.outLoc = ELoc::Z.getValue(); } // dbg2gExpand ignores namconv (DECLARE_UNUSED): default convention
+  e.newOut = 1;
+  s.sig = fmt("ndimIn=%d:ndimOut=%d:floc=%d", ndimIn, ndimOut, (int)e.flagLocator);
+  s.valid.label = "valid";
+  s.valid.exp = e;
+  auto f = [=](Db* a, Db* b) {
+    DbGrid* ga = dynamic_cast<DbGrid*>(a); DbGrid* gb = dynamic_cast<DbGrid*>(b);
+    if (which == "dbg2gCopy") return dbg2gCopy(ga, gb, nc);
+    if (which == "dbg2gExpand") return dbg2gExpand(ga, gb, nc);
+    return dbg2gShrink(ga, gb, nc);
+  };
+  s.valid.fn = [=](World& w) { return f(w.in(), w.out()); };
+  Adder add{s, e};
+  add("dbin-no-Z", [=](World& w) { return f(w.in(), w.out()); }, [](World& w) { w.in()->clearLocators(ELoc::Z); });
+  add("dbin-two-Z", [=](World& w) { return f(w.in(), w.out()); }, [](World& w) { w.in()->setLocator("i_early", ELoc::Z, 1); });
+  add("null-dbout", [=](World& w) { return f(w.in(), nullptr); });
+  add("grids-differ", [=](World& w) { return f(w.in(), w.out()); },
+      [=](World& w) { Rng rr(11); Prior pp; pp.tag = "q_"; GridOpts g2 = go; g2.nx[0] += 1; w.dout.reset(makeGrid(rr, g2, pp)); });
+  if (which != "dbg2gCopy")
+    add("wrong-direction", [=](World& w) { return f(w.in(), w.out()); },
+        [](World& w) { // the two grids exchanged (the former output grid gets exactly one Z variable)
+          std::swap(w.din, w.dout);
+          w.in()->clearLocators(ELoc::Z);
+          w.in()->setLocator("o_early", ELoc::Z, 0); });
+}
+
+
+// ------------------------------------------------------------------------------------------------
+// Scenario: simpgs (pluri-Gaussian simulation; legacy entry point that runs CalcSimuTurningBands inside)
+// ------------------------------------------------------------------------------------------------
+static void scenSimpgs(Rng& r, Ctx& c, Scen& s)
+{
+  int ndim = r.pick(std::vector<int>{2, 2, 3});
+  defineDefaultSpace(ESpaceType::RN, ndim);
+  bool cond = r.coin(0.5);
+  int ngrf  = r.coin(0.5) ? 2 : 1;
+  int nfac  = 3;
+  int nbsimu = r.irange(1, 2), seed = r.irange(1, 100000), nbtuba = r.irange(5, 15);
+  bool outGrid = r.coin(0.7);
+  Prior pin;  pin.tag = "i_"; pin.ndecor = r.irange(1, 5);
+  Prior pout; pout.tag = "o_"; pout.ndecor = r.irange(1, 5);
+  // locators this entry point works with (it creates FACIES / GAUSFAC / SIMU / L / U / P columns and deletes "by
+  // locator" at the end): documented as the working roles of the PGS -> not used as decoration here
+  for (const char* k : {"NOSTAT", "FACIES", "GAUSFAC", "SIMU", "L", "U", "P"})
+  { pin.avoid.push_back(ELoc::fromKey(k).getValue()); pout.avoid.push_back(ELoc::fromKey(k).getValue()); }
+  if (cond)
+  {
+    PointOpts po; po.ndim = ndim; po.n = r.irange(6, c.thorough() ? 30 : 14); po.nvar = 0;
+    Db* d = makePoints(r, po, pin);
+    VectorDouble f(po.n);
+    for (int k = 0; k < po.n; k++) f[k] = (double)r.irange(1, nfac);
+    d->addColumns(f, "facies", ELoc::Z, 0);
+    s.din0.reset(d);
+  }
+  if (outGrid) { GridOpts go; go.ndim = ndim; go.nx = gridShape(r, ndim, c.thorough() ? 60 : 25); go.nz = r.irange(0, 1); s.dout0.reset(makeGrid(r, go, pout)); }
+  else { PointOpts qo; qo.ndim = ndim; qo.n = r.irange(3, 12); qo.nvar = r.irange(0, 1); s.dout0.reset(makePoints(r, qo, pout, "t")); }
+  ModelOpts mo; mo.ndim = ndim; mo.nvar = 1; mo.drift = -1;
+  s.model0.reset(makeModel(r, mo));
+  auto model2 = std::shared_ptr<Model>(makeModel(r, mo));
+  NeighOpts no; no.ndim = ndim; no.moving = false;
+  if (cond) s.mkNeigh = neighMaker(no);
+  auto rule = std::shared_ptr<Rule>(ngrf == 2 ? Rule::createFromNames({"S", "T", "F1", "F2", "F3"}) : Rule::createFromNames({"S", "S", "F1", "F2", "F3"}));
+  VectorDouble props({0.2, 0.5, 0.3});
+  auto rp = std::shared_ptr<RuleProp>(RuleProp::createFromRule(rule.get(), props));
+  bool fl = !r.coin(0.33);
+  Expect e;
+  e.flagLocator = fl; e.outLoc = ELoc::FACIES.getValue();
+  NamingConvention nc(r.pick(std::vector<std::string>{"Facies", "o_plain0"}), true, true, fl, ELoc::FACIES);
+  // doc (simtub.cpp simpgs): "nbsimu Number of simulations", "flag_gaus 1 if results must be gaussian; otherwise
+  // facies", "flag_prop 1 for facies proportion" — with both flags off: one facies column per simulation in dbout
+  e.newOut = nbsimu;
+  s.calc = cond ? "simpgs-cond" : "simpgs-nc";
+  s.sig = fmt("ndim=%d:ngrf=%d:out=%s:nbsimu=%d:floc=%d", ndim, ngrf, outGrid ? "grid" : "points", nbsimu, (int)fl);
+  s.valid.label = "valid";
+  s.valid.exp = e;
+  auto f = [=](Db* a, Db* b, RuleProp* rpp, Model* m1, Model* m2, ANeigh* ng, int nbs, int fgaus, int fprop) {
+    (void)rule; // RuleProp keeps a pointer to the Rule: keep it alive as long as the calls
+    return simpgs(a, b, rpp, m1, m2, ng, nbs, seed, fgaus, fprop, 0, 0, nbtuba, 5, 20, 5., nc); };
+  s.valid.fn = [=](World& w) { std::unique_ptr<Model> m2(model2->clone());
+                               return f(w.in(), w.out(), rp.get(), w.model.get(), ngrf == 2 ? m2.get() : nullptr, w.neigh.get(), nbsimu, 0, 0); };
+  Adder add{s, e};
+  add("null-ruleprop", [=](World& w) { return f(w.in(), w.out(), nullptr, w.model.get(), nullptr, w.neigh.get(), nbsimu, 0, 0); });
+  add("gaus-and-prop", [=](World& w) { std::unique_ptr<Model> m2(model2->clone());
+                                        return f(w.in(), w.out(), rp.get(), w.model.get(), ngrf == 2 ? m2.get() : nullptr, w.neigh.get(), nbsimu, 1, 1); });
+  add("model-bivariate", [=](World& w) { ModelOpts m3 = mo; m3.nvar = 2; Rng rr(7); std::unique_ptr<Model> m(makeModel(rr, m3)); std::unique_ptr<Model> m2(model2->clone());
+                                          return f(w.in(), w.out(), rp.get(), m.get(), ngrf == 2 ? m2.get() : nullptr, w.neigh.get(), nbsimu, 0, 0); });
+  if (ngrf == 2)
+    add("second-model-missing", [=](World& w) { return f(w.in(), w.out(), rp.get(), w.model.get(), nullptr, w.neigh.get(), nbsimu, 0, 0); });
+  add("nbtuba-zero", [=](World& w) { std::unique_ptr<Model> m2(model2->clone()); (void)rule;
+                                      return simpgs(w.in(), w.out(), rp.get(), w.model.get(), ngrf == 2 ? m2.get() : nullptr, w.neigh.get(), nbsimu, seed, 0, 0, 0, 0, 0, 5, 20, 5., nc); });
+  if (cond)
+  {
+    add("moving-neigh", [=](World& w) { NeighOpts n2 = no; n2.moving = true; std::unique_ptr<ANeigh> ng(neighMaker(n2)()); std::unique_ptr<Model> m2(model2->clone());
+                                         return f(w.in(), w.out(), rp.get(), w.model.get(), ngrf == 2 ? m2.get() : nullptr, ng.get(), nbsimu, 0, 0); });
+    add("two-Z", [=](World& w) { std::unique_ptr<Model> m2(model2->clone());
+                                  return f(w.in(), w.out(), rp.get(), w.model.get(), ngrf == 2 ? m2.get() : nullptr, w.neigh.get(), nbsimu, 0, 0); },
+        [](World& w) { w.in()->setLocator("i_early", ELoc::Z, 1); });
+  }
+}
+
 // ------------------------------------------------------------------------------------------------
 // Case dispatcher
 // ------------------------------------------------------------------------------------------------
@@ -1706,7 +1884,7 @@ static void run_case(Rng& r, Ctx& c)
     "kriging", "xvalid", "test_neigh", "krigtest", "krigcell", "kribayes", "krigprof", "kriggam", "simtub", "migrate", "migrateMulti", "migrateByAttribute",
     "migrateByLocator", "dbStatisticsOnGrid", "dbRegression", "rawToGaussianByLocator", "rawToGaussian", "gaussianToRaw",
     "normalScore", "rawToFactor", "simbayes", "simfft", "ConditionalExpectation", "UniformConditioning",
-    "DisjunctiveKriging", "dbZ2F", "dbF2Z"};
+    "DisjunctiveKriging", "dbZ2F", "dbF2Z", "dbg2gCopy", "dbg2gExpand", "dbg2gShrink", "simpgs"};
   // stratified: the calculator is a function of the case index so that every range of cases covers all of them
   const std::string& which = calcs[c.icase % calcs.size()];
   Scen s;
@@ -1720,6 +1898,10 @@ static void run_case(Rng& r, Ctx& c)
     scenMigrate(r, c, s, which);
   else if (which == "dbStatisticsOnGrid" || which == "dbRegression")
     scenStatistics(r, c, s, which);
+  else if (which == "simpgs")
+    scenSimpgs(r, c, s);
+  else if (which.rfind("dbg2g", 0) == 0)
+    scenGridToGrid(r, c, s, which);
   else if (which == "simbayes" || which == "simfft")
     scenSimOther(r, c, s, which);
   else if (which == "ConditionalExpectation" || which == "UniformConditioning" || which == "DisjunctiveKriging" ||
